@@ -1488,7 +1488,8 @@ void CDNS::IndexListItem::read(CdnsDecoder& dec)
     reset();
     bool indef = false;
     uint64_t length = dec.read_array_start(indef);
-    list.reserve(length);
+    // The announced length is not trusted for the allocation, the input may end long before
+    list.reserve(length < 1024 ? length : 1024);
 
     while (length > 0 || indef) {
         if (indef && dec.peek_type() == CborType::BREAK) {
